@@ -73,6 +73,8 @@ def places_read_by_rvalue(rv):
     return out
 
 
+ID2DEF = {}      # crate-independent id -> def path key of the workspace body (filled by Facts)
+
 WORKSPACE_CRATES = {'yui', 'yui_matrix', 'yui_homology', 'yui_link', 'yui_kh', 'ykh', 'yui_verif_fixtures'}
 
 
@@ -93,18 +95,24 @@ class Call:
 
     @property
     def callee(self):
-        """best known callee def path: the resolved instance when there is one"""
+        """best known callee def path: the resolved instance when there is one (as keyed in its own crate)"""
         if self.fn is None:
             return None
-        return self.fn.get('res') or self.fn['def']
+        if self.fn.get('res_id') in ID2DEF:
+            return ID2DEF[self.fn['res_id']]
+        return self.fn.get('res') or ID2DEF.get(self.fn.get('id')) or self.fn['def']
 
     @property
     def name(self):
         """resolved path when it is a workspace item, else the generic (trait) path"""
         if self.fn is None:
             return None
+        if self.fn.get('res_id') in ID2DEF:
+            return ID2DEF[self.fn['res_id']]
         if self.fn.get('res') and self.fn.get('res_crate') in WORKSPACE_CRATES:
             return self.fn['res']
+        if self.fn.get('id') in ID2DEF and not self.fn.get('trait'):
+            return ID2DEF[self.fn['id']]
         return self.fn['def']
 
     @property
@@ -282,7 +290,7 @@ class Body:
         for i, j, s_ in self.assigns():
             rv = s_['rv']
             if rv['k'] == 'agg' and rv.get('agg') in ('closure', 'coroutine'):
-                out.append(rv['closure'])
+                out.append(ID2DEF.get(rv.get('closure_id'), rv['closure']))
         return out
 
     def src_line(self, line):
@@ -321,12 +329,21 @@ class Facts:
         for k, b in self.bodies.items():
             if b.kind == 'Promoted':
                 _symex.PROMOTED[k] = b
-        # trait item -> implementing defs (class hierarchy fallback)
+        ID2DEF.clear()
+        self.by_id = {}
+        for k, b in self.bodies.items():
+            if b.d.get('id'):
+                self.by_id[b.d['id']] = k
+                ID2DEF[b.d['id']] = k
+        # trait item -> implementing defs (class hierarchy fallback); keyed by crate-independent id
         self.trait_impls = collections.defaultdict(list)
+        self.trait_impls_by_id = collections.defaultdict(list)
         for im in self.impls:
             for it in im['items']:
                 if it.get('trait_item'):
                     self.trait_impls[it['trait_item']].append((it['def'], im))
+                if it.get('trait_item_id'):
+                    self.trait_impls_by_id[it['trait_item_id']].append((it['def'], im))
         self._cg = None
         self._rcg = None
 
@@ -370,16 +387,20 @@ class Facts:
         if fn is None:
             return []
         if fn.get('res'):
+            if fn.get('res_id') in self.by_id:
+                return [self.by_id[fn['res_id']]]
             if fn['res'] in self.bodies:
                 return [fn['res']]
-            # resolved to an external / shim item: still may dispatch to a closure we know
+            # resolved to an external / shim item
             return []
         out = []
         d = fn['def']
-        if d in self.bodies:          # trait default body
+        if fn.get('id') in self.by_id:     # trait default body / plain fn
+            out.append(self.by_id[fn['id']])
+        elif d in self.bodies:
             out.append(d)
-        for (impl_def, im) in self.trait_impls.get(d, []):
-            if impl_def in self.bodies:
+        for (impl_def, im) in self.trait_impls_by_id.get(fn.get('id'), []):
+            if impl_def in self.bodies and impl_def not in out:
                 out.append(impl_def)
         return out
 
